@@ -108,6 +108,17 @@ def run_case(ctx, k, rng):
     lower = abs(math.fsum(d - b for b, d in S) - math.fsum(d - b for b, d in T)) / OM.SQRT2
     ctx.check("sandwich bounds", lower - tol <= v <= alld + tol and v >= -tol, got=v, lower=lower, upper=alld)
 
+    if A.size and B.size and scale_of(A, B) > 1e-100 and len(A) + len(B) <= 120 and rng.random() < 0.12:
+        PA, PB = A.copy(), B.copy()
+        try:
+            first = call(ctx, PA, PB)
+            how = vforms.update_in_place(rng, PA if rng.random() < 0.7 else PB, scale_of(A, B))
+            v_now, v_fresh = float(call(ctx, PA, PB)), OM.wasserstein_lsa(OM.finite_rows(PA.copy()), OM.finite_rows(PB.copy()))
+            ctx.check("after an in-place update the value is that of the current contents",
+                      abs(v_now - v_fresh) <= 1e-7 * scale_of(PA, PB) * (len(PA) + len(PB) + 1), got=v_now, oracle_on_current_values=v_fresh,
+                      before_update=first, update=how)
+        except Exception as e:
+            ctx.exception("after an in-place update the value is that of the current contents", e)
     sub = int(rng.integers(0, 3))
     if sub == 0:
         which = int(rng.integers(1, 4))
